@@ -32,6 +32,10 @@ type C04Case struct {
 	Actors  []C04Actor `json:"actors"`
 	// SpawnLink: requester 0 spawns a child with LinkChild that dies at once (0 none, 1 dies on a later kill, 2 dies immediately)
 	SpawnLink int `json:"spawn_link"`
+	// Reuse (> 0): instead of the general workload, the name-reuse scenario: a named process terminates
+	// (1 handler error, 2 kill), a successor claims the name as soon as it is free and a third process
+	// links (odd) or monitors (even variant: Reuse+2) that name once the successor owns it
+	Reuse int `json:"reuse,omitempty"`
 }
 
 type c04 struct{}
@@ -57,6 +61,9 @@ func (c04) Components() ([]string, []string) {
 }
 
 func (c04) Generate(r *simkit.Rand, tier string) any {
+	if r.Chance(0.12) {
+		return &C04Case{Targets: 1, Reuse: r.Range(1, 4)}
+	}
 	c := &C04Case{Targets: r.Range(1, 3)}
 	nreq := r.Range(1, 3)
 	maxOps := 5
@@ -74,7 +81,7 @@ func (c04) Generate(r *simkit.Rand, tier string) any {
 	for t := 0; t < c.Targets; t++ {
 		a := C04Actor{Role: "target"}
 		for j, n := 0, r.Range(0, 3); j < n; j++ {
-			a.Ops = append(a.Ops, C04Op{Op: simkit.Pick(r, "unregname", "delalias", "unregevent", "die", "normal"), T: t})
+			a.Ops = append(a.Ops, C04Op{Op: simkit.Pick(r, "unregname", "delalias", "unregevent", "die", "normal", "delspare"), T: t})
 		}
 		c.Actors = append(c.Actors, a)
 	}
@@ -155,6 +162,10 @@ func (c04) Run(e *simkit.Env, cc any) {
 		return
 	}
 	defer simkit.StopNode(e, n, false, 0)
+	if c.Reuse > 0 {
+		runC04Reuse(e, n, c)
+		return
+	}
 	var mu sync.Mutex
 	type tinfo struct {
 		pid   gen.PID
@@ -249,6 +260,7 @@ func (c04) Run(e *simkit.Env, cc any) {
 		h := &Hooks{Name: fmt.Sprintf("t%d", t), Env: e, Slow: true, Trap: true}
 		var dieStart int
 		var dieReason string
+		var spare gen.Alias
 		h.Message = func(p *Probe, from gen.PID, m any) error {
 			switch m {
 			case "setup":
@@ -257,6 +269,10 @@ func (c04) Run(e *simkit.Env, cc any) {
 					e.Fail("C04/unexpected-failure", "CreateAlias: %v", err)
 				}
 				targets[t].alias = al
+				// a second alias nobody relates to; deleting it must not affect the first
+				if sp, err := p.CreateAlias(); err == nil {
+					spare = sp
+				}
 				ev := gen.Atom(fmt.Sprintf("ev%d", t))
 				if _, err := p.RegisterEvent(ev, gen.EventOptions{}); err != nil {
 					e.Fail("C04/unexpected-failure", "RegisterEvent: %v", err)
@@ -278,6 +294,8 @@ func (c04) Run(e *simkit.Env, cc any) {
 						if err == nil {
 							markGone(c04Key{t, "alias"}, inv, e.Step(), "unregistered")
 						}
+					case "delspare":
+						err = p.DeleteAlias(spare)
 					case "unregevent":
 						err = p.UnregisterEvent(targets[t].event)
 						if err == nil {
@@ -605,5 +623,132 @@ func (c04) Run(e *simkit.Env, cc any) {
 				return
 			}
 		}
+	}
+}
+
+
+// runC04Reuse: a relation requested on a registered name after a new process has claimed
+// it belongs to the new owner: the requester is not told about the previous owner's
+// termination, and is told exactly once when the new owner goes away.
+func runC04Reuse(e *simkit.Env, n gen.Node, c *C04Case) {
+	var mu sync.Mutex
+	monitor := c.Reuse > 2
+	kill := c.Reuse%2 == 0
+	name := gen.Atom("rn")
+	var notes []string
+	linked := make(chan error, 1)
+	claimed := make(chan struct{})
+	var rpid gen.PID
+	rh := &Hooks{Name: "reuse-requester", Env: e, Trap: true}
+	rh.Message = func(p *Probe, from gen.PID, m any) error {
+		switch v := m.(type) {
+		case string:
+			if v == "linknow" {
+				var err error
+				if monitor {
+					err = p.MonitorProcessID(gen.ProcessID{Name: name, Node: n.Name()})
+				} else {
+					err = p.LinkProcessID(gen.ProcessID{Name: name, Node: n.Name()})
+				}
+				e.Logf("requester relates to the name -> %v", err)
+				linked <- err
+			}
+		case gen.MessageExitProcessID:
+			mu.Lock()
+			notes = append(notes, c04Reason(v.Reason))
+			mu.Unlock()
+			e.Logf("requester exit for name: %s", c04Reason(v.Reason))
+		case gen.MessageDownProcessID:
+			mu.Lock()
+			notes = append(notes, c04Reason(v.Reason))
+			mu.Unlock()
+			e.Logf("requester down for name: %s", c04Reason(v.Reason))
+		}
+		return nil
+	}
+	var err error
+	rpid, err = spawnUnder(e, n, rh)
+	if err != nil {
+		e.Infra("spawn: " + err.Error())
+		return
+	}
+	th := &Hooks{Name: "first-owner", Env: e, Slow: true}
+	th.Message = func(p *Probe, from gen.PID, m any) error {
+		if m == "die" {
+			return fmt.Errorf("boom-first")
+		}
+		return nil
+	}
+	tpid, err := n.SpawnRegister(name, ProbeFactory(th), gen.ProcessOptions{})
+	if err != nil {
+		e.Infra("spawn: " + err.Error())
+		return
+	}
+	sh := &Hooks{Name: "successor", Env: e}
+	sh.Message = func(p *Probe, from gen.PID, m any) error {
+		switch m {
+		case "claim":
+			for i := 0; i < 400; i++ {
+				if err := p.RegisterName(name); err == nil {
+					e.Logf("successor owns the name after %d attempts", i+1)
+					p.Send(rpid, "linknow")
+					close(claimed)
+					return nil
+				}
+				e.Gate("successor:retry")
+			}
+			e.Logf("successor gave up")
+			close(claimed)
+		case "die":
+			return fmt.Errorf("boom-second")
+		}
+		return nil
+	}
+	spid, err := n.Spawn(ProbeFactory(sh), gen.ProcessOptions{})
+	if err != nil {
+		e.Infra("spawn: " + err.Error())
+		return
+	}
+	e.Go("kill-first", func() {
+		if kill {
+			n.Kill(tpid)
+		} else {
+			n.Send(tpid, "die")
+		}
+	})
+	e.Go("claim", func() {
+		n.Send(spid, "claim")
+		e.WaitChan(claimed, time.Minute)
+	})
+	if !e.WaitClients(5 * time.Minute) {
+		e.Fail("C04/actor-stuck", "name-reuse scenario: an actor did not finish")
+		return
+	}
+	e.Settle(5 * time.Second)
+	var lerr error
+	select {
+	case lerr = <-linked:
+	default:
+		return // the successor never got the name: nothing to judge
+	}
+	if lerr != nil {
+		e.Fail("C04/unexpected-failure", "name-reuse scenario: relation on the name owned by the live successor failed: %v", lerr)
+		return
+	}
+	e.Probe("relation-on-reused-name")
+	mu.Lock()
+	got := append([]string(nil), notes...)
+	mu.Unlock()
+	if len(got) != 0 {
+		e.Fail("C04/notified-for-previous-owner", "a process that linked/monitored a registered name after a new process had claimed it was notified %v (the previous owner's termination) while the new owner is alive (monitor=%v)", got, monitor)
+		return
+	}
+	n.Send(spid, "die")
+	e.Settle(5 * time.Second)
+	mu.Lock()
+	got = append([]string(nil), notes...)
+	mu.Unlock()
+	if len(got) != 1 || got[0] != "boom-second" {
+		e.Fail("C04/not-notified", "name-reuse scenario: the owner of the name terminated (boom-second) and the process that links/monitors the name got notifications %v", got)
 	}
 }
